@@ -128,12 +128,12 @@ let () =
            let t = ni () in let k = ni () in
            let h = List.init t (fun _ ->
                let x = nflist nd in let e = nflist nd in let o = nflist nd in
-               { i_x = x; i_e = e; i_o = o; i_j = List.init nd (fun _ -> 0.0); i_boundary = false }) in
+               { i_x = x; i_e = e; i_o = o; i_j = List.init nd (fun _ -> 0.0); i_boundary = false; i_apply = true }) in
            let nq = ni () in
            let queries = List.init nq (fun _ -> List.init nd (fun _ -> nz ())) in
            let rec nat_of_int n = if n <= 0 then O else S (nat_of_int (n - 1)) in
            let c = { c_nd = nat_of_int nd; c_lower0 = lower; c_width = width; c_nx = nx; c_periodic = periodic;
-                     c_full = full; c_min = mn; c_apply = true; c_update = upd; c_cap = cap; c_maxf = maxf;
+                     c_full = full; c_min = mn; c_update = upd; c_cap = cap; c_maxf = maxf;
                      c_szd = false; c_same_step = same; c_subtract = sub; c_hidej = false; c_other = other;
                      c_scaled = false; c_sfac = (fun _ -> 1.0) } in
            let m = abf_machine fops in
@@ -167,7 +167,8 @@ let () =
            let h = List.init t (fun _ -> List.init nd (fun _ -> [nf ()])) in
            let c = { c_vars0 = List.map fst vg; c_geom0 = List.map snd vg; c_weight = weight; c_hill_width = hw;
                      c_freq = freq; c_gfreq = gfreq; c_use_grids = ug; c_keep = keep; c_wt = wt;
-                     c_bias_temp = bt; c_kb = kb; c_step_zero = false } in
+                     c_bias_temp = bt; c_kb = kb; c_step_zero = false; c_eb = false; c_eb_equil = z_of_int 0;
+                     c_eb_target = (fun _ -> 0.0) } in
            protocol (meta_machine fops) c it0 h k
              (fun (e, f) -> Printf.sprintf "E=%s F=%s" (hex e) (hexl (List.concat f)))
              (fun (_, hs) -> Printf.sprintf "NH=%d" (List.length hs))
